@@ -148,6 +148,17 @@ static void mode_json(void) {
     free(b);
   }
   { char one[1]; one[0] = 'x'; char* res = mi_stats_get_json(1, one); if (res != one || one[0] != 0) FAIL("mi_stats_get_json(1, buf)"); }
+  // the binary sibling: mi_stats_get(size, buf) for every size 0..sizeof(mi_stats_t)+64 into an exactly sized buffer (the sanitizer's red zone is directly behind it),
+  // with a canary in front of a second copy for the builds without sanitizer
+  for (size_t size = 0; size <= sizeof(mi_stats_t) + 64; size++) {
+    unsigned char* raw = (unsigned char*)malloc(size + 16);
+    memset(raw, 0xA5, size + 16);
+    mi_stats_get(size, (mi_stats_t*)raw);
+    for (size_t i = size; i < size + 16; i++) if (raw[i] != 0xA5) FAIL("mi_stats_get(%zu, buf) wrote to byte %zu of the caller's memory (beyond the buffer)", size, i);
+    free(raw);
+    if (size > 0) { char* exact = xbuf(size); mi_stats_get(size, (mi_stats_t*)exact); free(exact); }
+    n_json_sizes++;
+  }
   mi_free(fullj);
 }
 
